@@ -453,7 +453,7 @@ End AfterModifier.
 (* ---- examples: the hypotheses are satisfiable, and the no-op clause is false without its premise ------------ *)
 Definition ex_env : menv :=
   {| max_field_chars := 640;
-     urn_normalize := fun u => u; urn_valid := fun _ => true; urn_identity := fun u => u; urn_scheme := fun _ => 1;
+     urn_norm1 := fun u => u; urn_valid := fun _ => true; urn_identity := fun u => u; urn_scheme := fun _ => 1;
      urn_set_channel := fun _ u => u; urn_channel := fun _ => None; tel_scheme := 1;
      chan_can_send := fun _ => true; chan_supports := fun _ _ => true;
      field_types := [FText];
